@@ -4,7 +4,7 @@ from __future__ import annotations
 import ast
 import re
 
-from ..engine import flow
+from ..engine import finite, flow
 from ..engine.mutate import Mutant, Variant, in_function, replace_once, sub_once
 from ..engine.runner import Rule
 from ..engine.source import AnalysisError
@@ -204,6 +204,105 @@ def rule_detached_maintenance(ctx):
     src = ast.unparse(fi.node)
     ok = "NOT node.detached" in src and "UPDATE node SET creator = ? WHERE i = ?" in src
     ctx.check(ok, fi.fq, "hand-over only re-parents attached files to the (attached) new tree", "hand-over query no longer restricted to attached rows", "attached rows only")
+
+
+def rule_creator_forest(ctx):
+    """R-C09-8: creator links stay a forest: every statement that gives a stored node a new non-NULL creator is dominated by the chain check."""
+    model = ctx.sql
+    try:
+        chk = ctx.prog.func("trellis.Node.check_creator_acyclic")
+    except AnalysisError:
+        chk = None
+    ctx.check(chk is not None, "trellis.Node", "a creator-chain check exists", "Node has no check_creator_acyclic: nothing stops a node from being re-created by one of its own products", "present")
+    if chk is not None:
+        _creator_check_shape(ctx, chk)
+    _creator_writers(ctx, model)
+
+
+def _creator_check_shape(ctx, chk):
+    # (a) the check itself: walks creator links upward from the new creator, terminates, and raises a usage error when it meets self
+    consts = [ast.unparse(c.args[0]) for c in calls_in(chk.node) if callee_name(c) == "execute" and c.args]
+    ctx.check(len(consts) == 1, chk.fq, "runs one query", f"runs {len(consts)} queries", "one query")
+    if len(consts) != 1:
+        raise AnalysisError(f"{chk.fq}: query not found")
+    text = ctx.prog.fold("trellis", consts[0]) if consts[0].isidentifier() else None
+    if text is None:
+        raise AnalysisError(f"{chk.fq}: query is not a module constant")
+    flat = re.sub(r"\s+", " ", text.upper())
+    reads = ctx.cat.reads(text)
+    ctx.check("WITH RECURSIVE" in flat and ("node", "creator") in reads, chk.fq, "recursive walk over node.creator", f"reads {sorted(reads)[:4]}", "recursive over creator links")
+    ctx.check("UNION ALL" not in flat and " UNION " in flat, chk.fq, "the walk uses UNION, so it ends on any stored graph", "UNION ALL: a stored creator cycle makes the check itself spin", "UNION")
+    call = [c for c in calls_in(chk.node) if callee_name(c) == "execute"][0]
+    seed = ast.unparse(call.args[1]) if len(call.args) > 1 else ""
+    params = [a.arg for a in chk.node.args.args]
+    ctx.check(len(params) == 2 and re.fullmatch(rf"\({params[1]}\.i,\)", seed) is not None, chk.fq, "the walk starts at the new creator", f"the walk is seeded with {seed}: starting from the node itself looks for the creator among its ancestors, which is the wrong direction", "seeded with the new creator")
+    raises = [n for n in ast.walk(chk.node) if isinstance(n, ast.Raise) and n.exc is not None]
+    names = {callee_name(r.exc) if isinstance(r.exc, ast.Call) else ast.unparse(r.exc) for r in raises}
+    usage = set()
+    for nm in names:
+        try:
+            ci = ctx.prog.cls(f"exceptions.{nm}")
+        except AnalysisError:
+            continue
+        if any(c.name == "UsageError" for c in ctx.prog.mro(ci)):
+            usage.add(nm)
+    ctx.check(bool(names) and names == usage, chk.fq, "a closing cycle is refused with a usage error", f"raises {sorted(names)}", f"raises {sorted(usage)}")
+    tests = [_norm_src(n.test) for n in ast.walk(chk.node) if isinstance(n, ast.If)] + [_norm_src(g) for n in ast.walk(chk.node) if isinstance(n, ast.comprehension) for g in [n.iter]]
+    ctx.check("self.i" in ast.unparse(chk.node), chk.fq, "compares the chain with this node", "self.i no longer consulted", "self.i in chain")
+
+
+def _creator_writers(ctx, model):
+    # (b) every writer of a non-NULL node.creator on an existing row
+    n_sites = 0
+    for st in model.stmts:
+        fq = st.site.func.fq.split(".<locals>.")[0]
+        w = [x for x in st.writes if x[3] is None and x[1] == "node" and ((x[0] == "UPDATE" and x[2] == "creator"))]
+        if not w:
+            continue
+        flat_st = re.sub(r"\s+", " ", st.text)
+        if re.search(r"SET creator = NULL", flat_st, re.I):
+            ctx.ok(fq, "sets creator to NULL", "cannot close a cycle", where=f"stepup/core/{st.site.func.module.path.name}:{st.site.lineno}")
+            n_sites += 1
+            continue
+        n_sites += 1
+        fi = ctx.prog.func(fq)
+        if fq == "workflow.Workflow.register_static_tree":
+            # hand-over re-parents file rows under the tree node: files create nothing
+            ok = re.search(r"kind\s*=\s*'file'|JOIN file\b|FROM file\b", ast.unparse(fi.node)) is not None
+            ctx.check(ok, fq, "hand-over re-parents file nodes only (files have no products)", "the hand-over query is no longer restricted to file nodes", "file rows only", where=f"stepup/core/{st.site.func.module.path.name}:{st.site.lineno}")
+            continue
+        found = 0
+        for cre_none in (True, False):
+            ov = {"creator is None": cre_none, "creator is not None": not cre_none}
+            for tr, status in finite.feasible_paths(ctx.prog, fi, {}, ov):
+                for i, e in enumerate(tr):
+                    if e[0] == "call" and e[1].endswith("db.execute") and e[2].args and "UPDATE node SET creator = ?" in ast.unparse(e[2].args[0]):
+                        found += 1
+                        pre_tests = [(x[1], x[2]) for x in tr[:i] if x[0] == "test"]
+                        null = ("creator is None", True) in pre_tests or ("creator is not None", False) in pre_tests
+                        checked = any(x[0] == "call" and x[1].split(".")[-1] == "check_creator_acyclic" for x in tr[:i])
+                        if not checked and not null:
+                            # Trellis.create: the node's own products are cut loose afterwards, so only the node itself must be excluded
+                            not_self = any(t in pre_tests for t in (("creator is not None and creator.i == node.i", False), ("creator.i == node.i", False), ("creator is node", False), ("node.i == creator.i", False)))
+                            cut = _loops_detach_products(fi) and (status == "raise" or any(x[0] == "loop" and "products()" in str(x[1]) for x in tr[i:]))
+                            checked = not_self and cut
+                        ctx.check(checked or null, fq, "a stored node gets a new creator only after the creator-chain check", "node.creator is rewritten without checking that the new creator is not the node itself or one of its products: a detached running step that (re)defines itself or its creator closes a creator cycle (IntegrityError, or a recursive query that never returns)", "checked" if checked else "creator is NULL on this path", where=ctx.where_of(fi, e[2]))
+        if found == 0:
+            raise AnalysisError(f"{fq}: writer of node.creator not found on any path")
+    if n_sites < 4:
+        raise AnalysisError(f"only {n_sites} writers of node.creator found")
+
+
+def _loops_detach_products(fi):
+    """A `for product in <node>.products(): product.detach()` loop (the path enumerator follows a loop zero or one time)."""
+    for n in ast.walk(fi.node):
+        if isinstance(n, ast.For) and "products()" in ast.unparse(n.iter) and any(callee_name(c) == "detach" for c in calls_in(n)):
+            return True
+    return False
+
+
+def _norm_src(n):
+    return re.sub(r"\s+", " ", ast.unparse(n))
 
 
 def rule_acyclic(ctx):
@@ -459,6 +558,7 @@ RULES = [
     Rule("R-C09-4", "acyclicity check placement", rule_acyclic, min_instances=5),
     Rule("R-C09-5", "state-transition relation at write sites", rule_transitions, min_instances=15),
     Rule("R-C09-6", "hash-transition whitelist covers producers and constraints", rule_whitelist, min_instances=30),
+    Rule("R-C09-8", "creator links stay a forest", rule_creator_forest, min_instances=9),
     Rule("R-C09-7", "open-time consistency check", rule_consistency_check, min_instances=3),
 ]
 
@@ -468,6 +568,11 @@ def _drop_trigger(name, file):
 
 
 MUTANTS = [
+    Mutant("reattach-no-creator-chain-check", "trellis.py", in_function("Node.reattach", replace_once("        self.check_creator_acyclic(new_creator)\n", "")), ("R-C09-8",)),
+    Mutant("create-no-self-creator-check", "trellis.py", in_function("Trellis.create", replace_once("            if creator is not None and creator.i == node.i:\n                raise CyclicError(f\"Node ({node.key()}) cannot be created by itself.\")\n", "")), ("R-C09-8",)),
+    Mutant("creator-chain-wrong-direction", "trellis.py", in_function("Node.check_creator_acyclic", lambda s: s.replace("(new_creator.i,)", "(self.i,)", 1).replace("row[0] == self.i", "row[0] == new_creator.i", 1) if "(new_creator.i,)" in s else None), ("R-C09-8",)),
+    Mutant("creator-chain-union-all", "trellis.py", lambda t: t.replace("    SELECT ?\n    UNION\n    SELECT node.creator FROM node INNER JOIN chain", "    SELECT ?\n    UNION ALL\n    SELECT node.creator FROM node INNER JOIN chain", 1) if "INNER JOIN chain" in t else None, ("R-C09-8",)),
+    Mutant("creator-chain-consistency-error", "trellis.py", in_function("Node.check_creator_acyclic", replace_once("            raise CyclicError(", "            raise ConsistencyError(")), ("R-C09-8",)),
     Mutant("completion-via-sinks", "step.py", in_function("Step.mark_completed", lambda s: s.replace("            for file in self.products(File):\n                if file.get_state() == FileState.OUTDATED:", "            for file in self.sinks(File):\n                if file.get_state() == FileState.OUTDATED:") if "if file.get_state() == FileState.OUTDATED:" in s else None), ("R-C09-5",)),
     _drop_trigger("file_check_undeclared_detached_upd", "file.py"),
     _drop_trigger("node_check_creator_kind_upd", "workflow.py"),
